@@ -156,10 +156,35 @@ def axiom_audit(prop, names):
     return res, out
 
 
-def run_evaluator(cmd, ops_path, out_path, timeout=3600):
+def run_evaluator(cmd, ops_path, out_path, timeout=1800):
+    """Runs one evaluator over a file of operations. A run that exceeds `timeout` seconds (a hang)
+    is killed and reported with return code -999."""
     with open(ops_path, "rb") as fin, open(out_path, "wb") as fout:
-        p = subprocess.run(cmd, stdin=fin, stdout=fout, stderr=subprocess.PIPE, timeout=timeout)
+        try:
+            p = subprocess.run(cmd, stdin=fin, stdout=fout, stderr=subprocess.PIPE, timeout=timeout)
+        except subprocess.TimeoutExpired:
+            return -999, "timed out after %d s" % timeout
     return p.returncode, p.stderr.decode(errors="replace")
+
+
+def isolate_crash(harness_bin, chunk, d, tag):
+    """The harness process died (abort, stack overflow, kill) or hung on this chunk: evaluate it
+    once more with every result line flushed at once; the operation after the last line that came
+    back is the one responsible. Returns (result lines, [culprit]) - the culprit's line is `crash`,
+    the operations behind it are `skipped` (not evaluated)."""
+    op = os.path.join(d, "iso-%s.txt" % tag)
+    out = os.path.join(d, "iso-%s.out" % tag)
+    with open(op, "w") as f:
+        f.write("\n".join(chunk) + "\n")
+    run_evaluator([harness_bin, "ops", "flush"], op, out, timeout=max(60, len(chunk) // 300))
+    got = open(out, errors="replace").read().split("\n")
+    if got and got[-1] == "":
+        got.pop()
+    got = got[:len(chunk)]
+    if len(got) == len(chunk):
+        return got, []
+    culprit = chunk[len(got)]
+    return got + ["crash"] + ["skipped"] * (len(chunk) - len(got) - 1), [culprit]
 
 
 def run_both(harness_bin, ops, tag, shards=None):
@@ -185,8 +210,10 @@ def run_both(harness_bin, ops, tag, shards=None):
         i, op = job
         io = os.path.join(d, "impl%d.out" % i)
         mo = os.path.join(d, "model%d.out" % i)
-        rc1, e1 = run_evaluator([harness_bin, "ops"], op, io)
-        rc2, e2 = run_evaluator([DRIVER_BIN], op, mo)
+        # a hang must not hold the check for long: generous per-operation budget, 90 s at least
+        budget = max(90, len(chunks[i]) // 300)
+        rc1, e1 = run_evaluator([harness_bin, "ops"], op, io, timeout=budget)
+        rc2, e2 = run_evaluator([DRIVER_BIN], op, mo, timeout=budget * 4)
         il = open(io, errors="replace").read().split("\n")
         ml = open(mo, errors="replace").read().split("\n")
         if il and il[-1] == "":
@@ -202,8 +229,12 @@ def run_both(harness_bin, ops, tag, shards=None):
             for i, rc1, e1, il, rc2, e2, ml in ex.map(one, jobs):
                 ch = chunks[i]
                 if rc1 != 0 or len(il) != len(ch):
-                    crashed.append(("impl", i, rc1, e1[-400:], len(il), len(ch)))
-                    il = il[:len(ch)] + ["crash"] * (len(ch) - len(il))
+                    culprits = []
+                    if not any(c[0] == "impl" and len(c) > 6 and c[6] for c in crashed):
+                        # the first shard that died is examined; one failing operation is enough
+                        il, culprits = isolate_crash(harness_bin, ch, d, "%d" % i)
+                    crashed.append(("impl", i, rc1, e1[-400:], len(il), len(ch), culprits))
+                    il = il[:len(ch)] + ["skipped"] * (len(ch) - len(il))
                 if rc2 != 0 or len(ml) != len(ch):
                     crashed.append(("model", i, rc2, e2[-400:], len(ml), len(ch)))
                     ml = ml[:len(ch)] + ["crash"] * (len(ch) - len(ml))
